@@ -15,8 +15,16 @@ compared with a reference resolver written from the statement alone:
     * the parser on top of the point is handed exactly that value (each element of it when the
       value is a list) or does not fire
 
-Nothing in the model looks at dr.IGNORE, context_handlers or the order of the point's deps."""
+Nothing in the model looks at dr.IGNORE, context_handlers or the order of the point's deps.
+
+Round 4: the evaluation goes through every public driver of dr (run, run_all, run_incremental,
+run_components with a harness-chosen linear extension or a cached dr.run_order), and the sub-check
+`history` evaluates one world several times in one process through the public front ends
+(insights.run / _run / process_dir / dr.* / SingleEvaluator, default graph, group name, private graph,
+one caller-owned graph object), including serialized archives written with Hydration.dehydrate; the
+same resolver is applied after every step and once more for every context after the last step."""
 import itertools
+import json
 import sys
 import types
 
@@ -31,7 +39,16 @@ RULE = ("a registry class with 1-3 registry points (random flags) and a sequence
         "datasource(s), a context plus a helper, or (rarely) a context-free helper; outcomes value / "
         "list value / SkipComponent / ContentException / CalledProcessError / TimeoutException / "
         "ValueError; each of the 3-4 private contexts is made the single active one in turn, through "
-        "dr.run or dr.run_all. Non-trivial (per world): for some active context a point has >= 3 "
+        "dr.run, dr.run_all, dr.run_incremental or dr.run_components (harness-chosen linear extension / "
+        "cached dr.run_order). Sub-check history: the same kind of world (values as DatasourceProvider) "
+        "plus 1-5 evaluation steps in one process, each through one public front end (insights.run with "
+        "root / context / component list / no root, insights._run, insights.process_dir, dr.run over a "
+        "private graph / the default graph / the group name / one caller-owned graph object, dr.run_all, "
+        "dr.run_incremental, dr.run_components, SingleEvaluator.process) under one private context or on a "
+        "serialized archive dehydrated from an evaluation of the world; resolver applied after every step "
+        "and for every context over the default graph (and the caller-owned graph) after the last one; "
+        "non-trivial there: a spec went through an archive, or >= 2 steps over a world with an override. "
+        "Non-trivial (per world): for some active context a point has >= 3 "
         "implementations, >= 2 of them declared for the active context, and either a declaration "
         "naming several contexts or a latest implementation that yields nothing; distinct by the "
         "whole case.")
@@ -44,6 +61,11 @@ ASSUMPTIONS = [
     "statement is unambiguous (see EXCLUDED)",
     "an implementation that names a context can only run when one of its named contexts is active "
     "(no at-least-one group mixing a context with a context-free datasource)",
+    "history: dr.COMPONENTS[GROUPS.single] holds only the generated components while a case runs (previous "
+    "content restored afterwards); a directory carrying a private context's marker file is identified as "
+    "that context; under SerializedArchiveContext only the 'other contexts never contribute' clause, "
+    "absence of specs that were not in the archive, and parser-input = spec content are demanded (the "
+    "statement does not speak about hydrated values)",
 ]
 EXCLUDED = [
     "value of a point when a context-free implementation with a value was registered after the "
@@ -53,6 +75,8 @@ EXCLUDED = [
     "implementation is 'overridden' (call-log assertions are still made)",
     "implementations returning None or an empty list (whether that is 'a value' is not stated)",
     "spec sets that subclass another implementing class; two contexts active at once",
+    "history: pooled front ends (parallel=True / pool=...), cluster archives, compressed archives "
+    "(extract), print_summary / command-line parsing of insights.run",
 ]
 
 _counter = itertools.count()
@@ -255,11 +279,22 @@ def _cleanup(comps, ctxs, modname):
     sys.modules.pop(modname, None)
 
 
-def _build(case, uid, log, parsed):
-    """returns (ctxs, helpers, points, impls{(si,p): comp}, parsers, all components, modname)"""
+def _build(case, uid, log, parsed, provider=False):
+    """returns the world: ctxs, helpers, points, impls{(si,p): comp}, parsers, all components, modname.
+    provider=True: values are handed out as DatasourceProvider objects (what a real datasource returns
+    and what the archive serialisers understand); the harness compares their text."""
     from insights.core.context import ExecutionContext
     from insights.core.plugins import datasource, parser
-    from insights.core.spec_factory import SpecSet, RegistryPoint
+    from insights.core.spec_factory import SpecSet, RegistryPoint, DatasourceProvider
+
+    def wrap(v, si, p):
+        if not provider:
+            return v
+        if isinstance(v, list):
+            return [DatasourceProvider(x, "vp/s%d_p%d_%d" % (si, p, k)) for k, x in enumerate(v)]
+        if isinstance(v, str) and v:
+            return DatasourceProvider(v, "vp/s%d_p%d" % (si, p))
+        return v
 
     modname = "vp_c05_synth_%d" % uid
     mod = types.ModuleType(modname)
@@ -269,7 +304,8 @@ def _build(case, uid, log, parsed):
     world = {"ctxs": ctxs, "comps": comps, "modname": modname, "helpers": [], "points": [],
              "impls": {}, "parsers": [], "classes": []}
     for i in range(case["nctx"]):
-        c = type("Ctx%d_%d" % (uid, i), (ExecutionContext,), {"__module__": modname})
+        c = type("Ctx%d_%d" % (uid, i), (ExecutionContext,),
+                 {"__module__": modname, "marker": "vp_c05_marker_%d_%d" % (uid, i)})
         setattr(mod, c.__name__, c)
         ctxs.append(c)
 
@@ -314,7 +350,7 @@ def _build(case, uid, log, parsed):
             def body(broker, si=si, p=p, out=im["out"]):
                 log.append(["i", si, p])
                 _raise(out, "impl s%d p%d" % (si, p))
-                return _value("v|s%d|p%d" % (si, p), out)
+                return wrap(_value("v|s%d|p%d" % (si, p), out), si, p)
             body.__name__ = body.__qualname__ = "impl%d_%d_%d" % (uid, si, p)
             body.__module__ = modname
             comp = datasource(*deps_of(im))(body)
@@ -328,6 +364,7 @@ def _build(case, uid, log, parsed):
     def define_parsers():
         for p, pt in enumerate(world["points"]):
             def pbody(value, p=p):
+                value = _plain(value)
                 parsed.append([p, value])
                 return ["parsed", p, value]
             pbody.__name__ = pbody.__qualname__ = "parser%d_%d" % (uid, p)
@@ -340,6 +377,142 @@ def _build(case, uid, log, parsed):
     world["define_set"] = define_set
     world["define_parsers"] = define_parsers
     return world
+
+
+def _kahn(graph, prio):
+    """a linear extension of `graph` (component -> dependencies) chosen by the harness: among the
+    components whose dependencies are all placed, the one with the smallest priority goes next"""
+    from insights.core import dr
+    comps = sorted(set(graph) | set(d for ds in graph.values() for d in ds), key=dr.get_name)
+    idx = dict((c, k) for k, c in enumerate(comps))
+    remaining = set(comps)
+    out = []
+    while remaining:
+        ready = [c for c in remaining if not (set(graph.get(c, ())) & remaining)]
+        ready.sort(key=lambda c: (prio[idx[c] % len(prio)], idx[c]))
+        out.append(ready[0])
+        remaining.discard(ready[0])
+    return out
+
+
+DRIVERS = ["run", "run_all", "run_incremental", "run_components", "run_components+run_order"]
+
+
+def _drive(driver, graph, broker, prio, cached_order):
+    """evaluates a private copy of `graph` with `broker` through one of dr's public drivers"""
+    from insights.core import dr
+    g = dict((k, set(v)) for k, v in graph.items())
+    if driver == "run":
+        dr.run(g, broker=broker)
+    elif driver == "run_all":
+        dr.run_all(g, broker=broker)
+    elif driver == "run_incremental":
+        for _ in dr.run_incremental(g, broker=broker):
+            pass
+    elif driver == "run_components":
+        # documented: "allows callers to order components themselves"
+        dr.run_components(_kahn(g, prio), g, broker)
+    elif driver == "run_components+run_order":
+        # "... and cache the result so they don't incur the toposort overhead on every run"
+        if not cached_order:
+            cached_order.append(dr.run_order(g))
+        dr.run_components(list(cached_order[0]), g, broker)
+    else:
+        raise HarnessError("bad case: driver %r" % (driver,))
+
+
+def _plain(v):
+    """content providers (used where values have to be serialisable into an archive) -> their text"""
+    if isinstance(v, list):
+        return [_plain(x) for x in v]
+    if hasattr(v, "relative_path") and hasattr(v, "content"):
+        return "\n".join(v.content)
+    return v
+
+
+def _assert_resolution(case, active, broker, log, parsed, world, labels):
+    """the oracle for ONE evaluation of the world described by `case` under private context `active`:
+    `broker` is what the evaluation left behind, `log` / `parsed` what the generated bodies recorded
+    during it.  Raises Violation; returns whether the evaluation was a non-trivial one."""
+    points, impls, parsers = world["points"], world["impls"], world["parsers"]
+    nontrivial_here = False
+
+    def held(c):
+        return _plain(broker[c])
+    calls = {}
+    for e in log:
+        if e[0] == "i":
+            calls[(e[1], e[2])] = calls.get((e[1], e[2]), 0) + 1
+    for m in model(case, active):
+        p = m["point"]
+        pt = points[p]
+        ctx = dict(active_context=active, point=p, latest=m["latest"],
+                   calls=sorted([list(k), v] for k, v in calls.items()))
+        for sid in m["must_not_run"]:
+            key = (sid[0], sid[1])
+            what = sid[2]
+            if calls.get(key):
+                raise Violation("implementation of set %d for point %d (%s) was executed with "
+                                "context %d active" % (sid[0], p, what, active), **ctx)
+            if impls[key] in broker:
+                raise Violation("implementation of set %d for point %d has a value in the broker "
+                                "although it must not contribute under context %d" % (sid[0], p, active),
+                                **ctx)
+        if m["latest"] is not None:
+            n = calls.get((m["latest"][0], m["latest"][1]), 0)
+            if n != (1 if m["latest_runs"] else 0):
+                raise Violation("latest implementation for the active context (set %d, point %d) ran "
+                                "%d time(s), expected %d" % (m["latest"][0], p, n, 1 if m["latest_runs"] else 0),
+                                **ctx)
+        seen = [v for (pp, v) in parsed if pp == p]
+        if m["mode"] == "value":
+            if pt not in broker:
+                raise Violation("point %d is absent under context %d although its latest implementation "
+                                "(set %d) produced a value" % (p, active, m["latest"][0]), expected=m["value"], **ctx)
+            if held(pt) != m["value"]:
+                raise Violation("point %d holds %r under context %d, the latest implementation for that "
+                                "context (set %d) produced %r" % (p, held(pt), active, m["latest"][0], m["value"]),
+                                **ctx)
+            want_seen = m["value"] if isinstance(m["value"], list) else [m["value"]]
+            if seen != want_seen:
+                raise Violation("parser on point %d was handed %r, expected %r" % (p, seen, want_seen), **ctx)
+            if parsers[p] not in broker and want_seen:
+                # (an empty list hands the parser no element: it has nothing to parse)
+                raise Violation("parser on point %d has no value although the spec is present" % p, **ctx)
+        elif m["mode"] == "absent":
+            if pt in broker:
+                raise Violation("point %d holds %r under context %d although the latest implementation "
+                                "for that context yields nothing (or none is declared for it)"
+                                % (p, held(pt), active), **ctx)
+            if seen or parsers[p] in broker:
+                raise Violation("parser on point %d fired although the spec is absent" % p, seen=seen, **ctx)
+        else:
+            labels.add("value-unasserted(context-free impl)")
+            # still: the parser sees what the point holds, nothing else
+            if pt in broker:
+                v = held(pt)
+                if seen != (v if isinstance(v, list) else [v]):
+                    raise Violation("parser on point %d was handed %r but the point holds %r" % (p, seen, v), **ctx)
+            elif seen:
+                raise Violation("parser on point %d fired although the spec is absent" % p, seen=seen, **ctx)
+        # labels / non-triviality
+        labels.add("impls=%s" % (m["n_impls"] if m["n_impls"] < 4 else "4+"))
+        labels.add("cands=%s" % (m["n_cands"] if m["n_cands"] < 3 else "3+"))
+        if m["n_cands"] >= 2:
+            labels.add("override")
+        if m["mixed"] and m["n_cands"] >= 2:
+            labels.add("override+multi-context-declaration")
+        if m["n_cands"] >= 2 and m["mode"] == "absent":
+            labels.add("override+latest-yields-nothing")
+        if m["latest"] is not None and not m["latest_runs"]:
+            labels.add("latest-unmet-deps")
+        if m["n_free"]:
+            labels.add("has-context-free-impl")
+            if m["mode"] == "value" and m["n_cands"]:
+                labels.add("declared-beats-earlier-context-free")
+        if m["n_impls"] >= 3 and m["n_cands"] >= 2 and (m["mixed"] or m["mode"] == "absent"):
+            nontrivial_here = True
+    return nontrivial_here
 
 
 def check_world(case):
@@ -361,6 +534,7 @@ def check_world(case):
 
         def evaluate(nsets):
             nontrivial_here = False
+            cached_order = []      # a caller of run_components may compute the order once and keep it
             for active in range(case["nctx"]):
                 del log[:]
                 del parsed[:]
@@ -370,83 +544,9 @@ def check_world(case):
                 broker = dr.Broker()
                 broker.store_skips = bool(case.get("store_skips"))
                 broker[ctxs[active]] = ctxs[active]()
-                if case.get("driver") == "run_all":
-                    dr.run_all(dict(graph), broker=broker)
-                else:
-                    dr.run(dict(graph), broker=broker)
-                calls = {}
-                for e in log:
-                    if e[0] == "i":
-                        calls[(e[1], e[2])] = calls.get((e[1], e[2]), 0) + 1
-                for m in model(dict(case, sets=case["sets"][:nsets]), active):
-                    p = m["point"]
-                    pt = points[p]
-                    ctx = dict(active_context=active, point=p, latest=m["latest"],
-                               calls=sorted([list(k), v] for k, v in calls.items()))
-                    for sid in m["must_not_run"]:
-                        key = (sid[0], sid[1])
-                        what = sid[2]
-                        if calls.get(key):
-                            raise Violation("implementation of set %d for point %d (%s) was executed with "
-                                            "context %d active" % (sid[0], p, what, active), **ctx)
-                        if impls[key] in broker:
-                            raise Violation("implementation of set %d for point %d has a value in the broker "
-                                            "although it must not contribute under context %d" % (sid[0], p, active),
-                                            **ctx)
-                    if m["latest"] is not None:
-                        n = calls.get((m["latest"][0], m["latest"][1]), 0)
-                        if n != (1 if m["latest_runs"] else 0):
-                            raise Violation("latest implementation for the active context (set %d, point %d) ran "
-                                            "%d time(s), expected %d" % (m["latest"][0], p, n, 1 if m["latest_runs"] else 0),
-                                            **ctx)
-                    seen = [v for (pp, v) in parsed if pp == p]
-                    if m["mode"] == "value":
-                        if pt not in broker:
-                            raise Violation("point %d is absent under context %d although its latest implementation "
-                                            "(set %d) produced a value" % (p, active, m["latest"][0]), expected=m["value"], **ctx)
-                        if broker[pt] != m["value"]:
-                            raise Violation("point %d holds %r under context %d, the latest implementation for that "
-                                            "context (set %d) produced %r" % (p, broker[pt], active, m["latest"][0], m["value"]),
-                                            **ctx)
-                        want_seen = m["value"] if isinstance(m["value"], list) else [m["value"]]
-                        if seen != want_seen:
-                            raise Violation("parser on point %d was handed %r, expected %r" % (p, seen, want_seen), **ctx)
-                        if parsers[p] not in broker and want_seen:
-                            # (an empty list hands the parser no element: it has nothing to parse)
-                            raise Violation("parser on point %d has no value although the spec is present" % p, **ctx)
-                    elif m["mode"] == "absent":
-                        if pt in broker:
-                            raise Violation("point %d holds %r under context %d although the latest implementation "
-                                            "for that context yields nothing (or none is declared for it)"
-                                            % (p, broker[pt], active), **ctx)
-                        if seen or parsers[p] in broker:
-                            raise Violation("parser on point %d fired although the spec is absent" % p, seen=seen, **ctx)
-                    else:
-                        labels.add("value-unasserted(context-free impl)")
-                        # still: the parser sees what the point holds, nothing else
-                        if pt in broker:
-                            v = broker[pt]
-                            if seen != (v if isinstance(v, list) else [v]):
-                                raise Violation("parser on point %d was handed %r but the point holds %r" % (p, seen, v), **ctx)
-                        elif seen:
-                            raise Violation("parser on point %d fired although the spec is absent" % p, seen=seen, **ctx)
-                    # labels / non-triviality
-                    labels.add("impls=%s" % (m["n_impls"] if m["n_impls"] < 4 else "4+"))
-                    labels.add("cands=%s" % (m["n_cands"] if m["n_cands"] < 3 else "3+"))
-                    if m["n_cands"] >= 2:
-                        labels.add("override")
-                    if m["mixed"] and m["n_cands"] >= 2:
-                        labels.add("override+multi-context-declaration")
-                    if m["n_cands"] >= 2 and m["mode"] == "absent":
-                        labels.add("override+latest-yields-nothing")
-                    if m["latest"] is not None and not m["latest_runs"]:
-                        labels.add("latest-unmet-deps")
-                    if m["n_free"]:
-                        labels.add("has-context-free-impl")
-                        if m["mode"] == "value" and m["n_cands"]:
-                            labels.add("declared-beats-earlier-context-free")
-                    if m["n_impls"] >= 3 and m["n_cands"] >= 2 and (m["mixed"] or m["mode"] == "absent"):
-                        nontrivial_here = True
+                _drive(case.get("driver", "run"), graph, broker, case.get("prio") or [0], cached_order)
+                if _assert_resolution(dict(case, sets=case["sets"][:nsets]), active, broker, log, parsed, world, labels):
+                    nontrivial_here = True
             return nontrivial_here
 
         if eval_after:
@@ -517,7 +617,11 @@ def _world(draw, tier):
             s.append(im)
         sets.append(s)
     case = {"nctx": nctx, "points": points, "helpers": helpers, "sets": sets,
-            "store_skips": draw(st.booleans()), "driver": draw(st.sampled_from(["run", "run", "run_all"]))}
+            "store_skips": draw(st.booleans()),
+            "driver": draw(st.sampled_from(["run", "run", "run_all", "run_incremental", "run_components",
+                                            "run_components", "run_components+run_order"]))}
+    if case["driver"] == "run_components":
+        case["prio"] = draw(st.lists(st.integers(0, 40), min_size=1, max_size=10))
     if len(sets) >= 2 and draw(st.integers(0, 2)) == 0:
         # evaluate between definitions (a spec set defined after an evaluation already happened)
         case["eval_after"] = sorted(draw(st.sets(st.integers(0, len(sets) - 2), min_size=1, max_size=2)))
@@ -744,11 +848,324 @@ def check_shipped(case):
     return {"nontrivial": len(cs) >= 2 or (bool(cs) and via), "labels": labels}
 
 
+# ------------------------------------------------------------------------------------------------
+# histories: several evaluations in ONE process, through the public front ends
+#
+# The statement holds "for every spec name" in every evaluation; nothing in it depends on what the
+# process evaluated before.  A case is a world plus a list of evaluation steps.  Every step evaluates the
+# world through one public front end (insights.run with / without root, component list, explicit context;
+# insights._run; insights.process_dir; dr.run over a private graph, the default graph, the group name;
+# dr.run_all; dr.run_incremental; dr.run_components) either under one private context (a directory that
+# carries the context's marker, or the context class handed over) or on a *serialized archive* written
+# with the repository's own Hydration.dehydrate from an evaluation of the world (SerializedArchiveContext:
+# the specs found in meta_data/ are pre-populated).  After every step under a private context the
+# reference resolver is applied as in `spec_sets`; after the last step every private context is made
+# active once more over the default graph.  dr.COMPONENTS[GROUPS.single] holds the generated components
+# only while a case runs (its previous content is put back afterwards, same objects).
+
+CTX_DRIVERS = ["insights.run", "insights.run", "insights.run+context", "insights.run+components",
+               "insights.run-noroot", "_run", "process_dir", "dr.run(graph)", "dr.run(default)",
+               "dr.run(group)", "dr.run_all(default)", "dr.run_incremental(graph)", "dr.run_components",
+               "SingleEvaluator.process", "SingleEvaluator.process+incremental",
+               "dr.run(own graph)", "dr.run_incremental(own graph)", "dr.run_components(own graph)",
+               "SingleEvaluator.process(own graph)"]
+SER_DRIVERS = ["insights.run", "insights.run", "insights.run+components", "_run", "process_dir",
+               "dr.run(graph)", "dr.run_all(default)", "dr.run_incremental(graph)",
+               "SingleEvaluator.process(graph)", "SingleEvaluator.process+incremental",
+               "dr.run(default)", "dr.run(group)", "dr.run_incremental(default)", "SingleEvaluator.process",
+               "dr.run(own graph)", "dr.run_incremental(own graph)", "SingleEvaluator.process(own graph)"]
+# "own graph": ONE graph object the caller built from get_dependency_graph before the first step and keeps
+# handing over (callers cache their graph); "default" / "group": the process-wide graph of the single group
+
+
+def check_history(case):
+    import os
+    import shutil
+    import tempfile
+    import io
+    import insights
+    from insights.core import dr
+    from insights.core.context import SerializedArchiveContext
+    from insights.core.evaluators import SingleEvaluator     # (imported before the group is emptied)
+    from insights.core.hydration import initialize_broker
+    from insights.core.serde import Hydration
+
+    wcase = case["world"]
+    _validate(wcase)
+    steps = case["steps"]
+    for stp in steps:
+        if stp["kind"] not in ("ctx", "ser") or stp["driver"] not in (CTX_DRIVERS if stp["kind"] == "ctx" else SER_DRIVERS):
+            raise HarnessError("bad case: step %r" % (stp,))
+    uid = next(_counter)
+    log, parsed = [], []
+    labels = set()
+    world = None
+    tmp = None
+    nontrivial = False
+    hydrated_total = 0
+    store_skips = bool(wcase.get("store_skips"))
+    group = dr.COMPONENTS[dr.GROUPS.single]
+    saved_group = list(group.items())
+    group.clear()
+    try:
+        tmp = tempfile.mkdtemp(prefix="vp_c05_")
+        world = _build(wcase, uid, log, parsed, provider=True)
+        for si in range(len(wcase["sets"])):
+            world["define_set"](si)
+        world["define_parsers"]()
+        ctxs, points, impls, parsers = world["ctxs"], world["points"], world["impls"], world["parsers"]
+        nctx = wcase["nctx"]
+
+        def private_graph():
+            g = {}
+            for ps in parsers:
+                g.update(dr.get_dependency_graph(ps))
+            return dict((k, set(v)) for k, v in g.items())
+
+        def new_broker(ctx_cls=None):
+            b = dr.Broker()
+            b.store_skips = store_skips
+            if ctx_cls is not None:
+                b[ctx_cls] = ctx_cls()
+            return b
+
+        def marked_dir(i):
+            d = os.path.join(tmp, "ctx%d" % i)
+            if not os.path.isdir(d):
+                os.makedirs(d)
+                open(os.path.join(d, ctxs[i].marker), "w").close()
+            return d
+
+        def unmarked_dir():
+            d = os.path.join(tmp, "plain")
+            if not os.path.isdir(d):
+                os.makedirs(d)
+                open(os.path.join(d, "some_file"), "w").close()
+            return d
+
+        def reset():
+            del log[:]
+            del parsed[:]
+
+        own = private_graph()
+        own_used = []
+
+        def drive_broker(driver, b, prio):
+            """the front ends that take a broker the caller prepared"""
+            if driver == "dr.run(graph)":
+                dr.run(private_graph(), broker=b)
+            elif driver == "dr.run(own graph)":
+                own_used.append(1)
+                dr.run(own, broker=b)
+            elif driver == "dr.run(default)":
+                dr.run(broker=b)
+            elif driver == "dr.run(group)":
+                dr.run(dr.GROUPS.single, broker=b)
+            elif driver == "dr.run_all(default)":
+                dr.run_all(broker=b)
+            elif driver == "dr.run_incremental(graph)":
+                for _ in dr.run_incremental(private_graph(), broker=b):
+                    pass
+            elif driver == "dr.run_incremental(own graph)":
+                own_used.append(1)
+                for _ in dr.run_incremental(own, broker=b):
+                    pass
+            elif driver == "dr.run_incremental(default)":
+                for _ in dr.run_incremental(broker=b):
+                    pass
+            elif driver == "dr.run_components":
+                g = private_graph()
+                dr.run_components(_kahn(g, prio or [0]), g, b)
+            elif driver == "dr.run_components(own graph)":
+                own_used.append(1)
+                dr.run_components(_kahn(own, prio or [0]), own, b)
+            elif driver == "SingleEvaluator.process":
+                SingleEvaluator(b, stream=io.StringIO()).process()
+            elif driver == "SingleEvaluator.process+incremental":
+                SingleEvaluator(b, stream=io.StringIO(), incremental=True).process()
+            elif driver == "SingleEvaluator.process(graph)":
+                SingleEvaluator(b, stream=io.StringIO()).process(private_graph())
+            elif driver == "SingleEvaluator.process(own graph)":
+                own_used.append(1)
+                SingleEvaluator(b, stream=io.StringIO()).process(own)
+            else:
+                raise HarnessError("bad case: driver %r" % (driver,))
+            return b
+
+        def eval_private(i, driver, prio):
+            """one evaluation with private context i active -> the broker it leaves behind"""
+            C = ctxs[i]
+            if driver == "insights.run":
+                return insights.run(root=marked_dir(i), store_skips=store_skips)
+            if driver == "insights.run+context":
+                return insights.run(root=unmarked_dir(), context=C, store_skips=store_skips)
+            if driver == "insights.run+components":
+                return insights.run(component=list(parsers), root=marked_dir(i), store_skips=store_skips)
+            if driver == "insights.run-noroot":
+                return insights.run(context=C, store_skips=store_skips)
+            if driver == "_run":
+                return insights._run(new_broker(), dr.COMPONENTS[dr.GROUPS.single], root=marked_dir(i))
+            if driver == "process_dir":
+                return insights.process_dir(new_broker(), marked_dir(i), dr.COMPONENTS[dr.GROUPS.single], None)
+            return drive_broker(driver, new_broker(C), prio)
+
+        def eval_serialized(root, driver):
+            if driver == "insights.run":
+                return insights.run(root=root, store_skips=store_skips)
+            if driver == "insights.run+components":
+                return insights.run(component=list(parsers), root=root, store_skips=store_skips)
+            if driver == "_run":
+                return insights._run(new_broker(), dr.COMPONENTS[dr.GROUPS.single], root=root)
+            if driver == "process_dir":
+                return insights.process_dir(new_broker(), root, dr.COMPONENTS[dr.GROUPS.single], None)
+            _ctx, b = initialize_broker(root, broker=new_broker())
+            return drive_broker(driver, b, None)
+
+        def assert_private(i, broker, where):
+            if broker is None or ctxs[i] not in broker:
+                raise Violation("%s: the evaluation did not happen under the context the directory / the caller "
+                                "designates (private context %d)" % (where, i))
+            try:
+                return _assert_resolution(wcase, i, broker, log, parsed, world, labels)
+            except Violation as v:
+                raise Violation("%s: %s" % (where, v.msg), **v.details)
+
+        def assert_serialized(broker, hydrated, where):
+            """under the serialized-archive context only what the statement says about implementations
+            declared for OTHER contexts is demanded (they never run, never hold a value); a spec that was
+            not in the archive and has no context-free implementation is absent; the parser is handed what
+            the spec holds"""
+            if broker is None or SerializedArchiveContext not in broker:
+                raise Violation("%s: not evaluated under SerializedArchiveContext" % where)
+            calls = set((e[1], e[2]) for e in log if e[0] == "i")
+            hdecl = []
+            for h in wcase["helpers"]:
+                hdecl.append(_declared(h, hdecl))
+            for p, pt in enumerate(points):
+                free = False
+                for si, s_ in enumerate(wcase["sets"]):
+                    for im in s_:
+                        if im["point"] != p:
+                            continue
+                        if not _declared(im, hdecl):
+                            free = True
+                            continue
+                        if (si, p) in calls or impls[(si, p)] in broker:
+                            raise Violation("%s: implementation of set %d for point %d is declared only for other "
+                                            "contexts but was executed / holds a value under the serialized-archive "
+                                            "context" % (where, si, p))
+                seen = [v for (pp, v) in parsed if pp == p]
+                if pt in broker:
+                    if p not in hydrated and not free:
+                        raise Violation("%s: point %d holds %r although it was not in the archive and no "
+                                        "implementation is declared for the active context" % (where, p, _plain(broker[pt])))
+                    v = _plain(broker[pt])
+                    if seen != (v if isinstance(v, list) else [v]):
+                        raise Violation("%s: parser on point %d was handed %r but the point holds %r" % (where, p, seen, v))
+                elif seen:
+                    raise Violation("%s: parser on point %d fired although the spec is absent" % (where, p), seen=seen)
+
+        # an archive is written from an evaluation that had something to serialise (if there is one):
+        # the source context of a "ser" step is taken among the contexts under which the resolver
+        # expects a value for some point
+        rich = [i for i in range(nctx) if any(m["mode"] == "value" and m["value"] for m in model(wcase, i))]
+        for k, stp in enumerate(steps):
+            i = stp["ctx"] % nctx
+            if stp["kind"] == "ser" and rich:
+                i = rich[stp["ctx"] % len(rich)]
+            where = "step %d (%s, %s, context %d)" % (k, stp["kind"], stp["driver"], i)
+            if stp["kind"] == "ctx":
+                reset()
+                b = eval_private(i, stp["driver"], stp.get("prio"))
+                nontrivial = assert_private(i, b, where) or nontrivial
+                labels.add("ctx:" + stp["driver"])
+            else:
+                # the archive is written from an ordinary evaluation of the world under private context i
+                reset()
+                src = new_broker(ctxs[i])
+                dr.run(private_graph(), broker=src)
+                nontrivial = assert_private(i, src, where + " source evaluation") or nontrivial
+                root = os.path.join(tmp, "ser%d" % k)
+                os.makedirs(root)
+                open(os.path.join(root, SerializedArchiveContext.marker), "w").close()
+                hyd = Hydration(root, ctx=src[ctxs[i]])
+                hydrated = set()
+                for p, pt in enumerate(points):
+                    if pt in src:
+                        hyd.dehydrate(pt, src)
+                        doc = os.path.join(root, "meta_data", dr.get_name(pt) + ".json")
+                        if os.path.exists(doc):
+                            with open(doc) as f:
+                                if json.load(f).get("results"):
+                                    hydrated.add(p)
+                reset()
+                b = eval_serialized(root, stp["driver"])
+                assert_serialized(b, hydrated, where)
+                hydrated_total += len(hydrated)
+                labels.add("ser:" + stp["driver"])
+                labels.add("ser:hydrated-points=%d" % min(len(hydrated), 2))
+        # whatever happened before: every private context, once more, over the default graph
+        for i in range(nctx):
+            reset()
+            b = new_broker(ctxs[i])
+            dr.run(broker=b)
+            nontrivial = assert_private(i, b, "after the history, default graph under context %d" % i) or nontrivial
+            if own_used:
+                reset()
+                b = new_broker(ctxs[i])
+                dr.run(own, broker=b)
+                nontrivial = assert_private(i, b, "after the history, the caller's own graph under context %d" % i) or nontrivial
+        labels.add("steps=%d" % len(steps))
+        if hydrated_total:
+            labels.add("history-with-hydrated-spec")
+        if len(set(stp["driver"] for stp in steps)) >= 2:
+            labels.add("drivers>=2")
+        # non-trivial: a spec went through an archive and is resolved again afterwards, or >= 2 steps over
+        # a world in which some implementation is overridden for the active context
+        return {"nontrivial": bool(hydrated_total or (len(steps) >= 2 and "override" in labels)),
+                "labels": sorted(labels)}
+    finally:
+        try:
+            if world is not None:
+                _cleanup(world["comps"], world["ctxs"], world["modname"])
+        finally:
+            # (components that something registered meanwhile - there should be none - are kept)
+            extra = [(k, v) for k, v in group.items() if k not in set(world["comps"] if world else ())]
+            group.clear()
+            group.update(saved_group)
+            group.update(extra)
+            if tmp is not None:
+                shutil.rmtree(tmp, ignore_errors=True)
+
+
+@st.composite
+def _history(draw, tier):
+    w = draw(_world(tier))
+    w.pop("eval_after", None)
+    w.pop("prio", None)
+    w.pop("driver", None)
+    steps = []
+    for _ in range(draw(st.sampled_from([2, 3, 1, 4, 2, 3, 5]))):
+        kind = draw(st.sampled_from(["ctx", "ctx", "ser"]))
+        stp = {"kind": kind, "ctx": draw(st.integers(0, w["nctx"] - 1)),
+               "driver": draw(st.sampled_from(CTX_DRIVERS if kind == "ctx" else SER_DRIVERS))}
+        if stp["driver"].startswith("dr.run_components"):
+            stp["prio"] = draw(st.lists(st.integers(0, 40), min_size=1, max_size=10))
+        steps.append(stp)
+    return {"world": w, "steps": steps}
+
+
+def strat_history(tier):
+    return _history(tier)
+
+
 SUBS = [
     Sub("shipped", check_shipped, enumerate=shipped_cases, workers_quick=4, workers_thorough=8, budget_quick=60,
         budget_thorough=300),
-    Sub("spec_sets", check_world, strategy=strat_world, quick=3000, thorough=12000, workers_quick=2,
-        workers_thorough=16, budget_quick=50, budget_thorough=540),
+    Sub("history", check_history, strategy=strat_history, quick=400, thorough=3000, workers_quick=2,
+        workers_thorough=16, budget_quick=20, budget_thorough=540),
+    Sub("spec_sets", check_world, strategy=strat_world, quick=2600, thorough=12000, workers_quick=2,
+        workers_thorough=16, budget_quick=36, budget_thorough=540),
 ]
 
 
@@ -775,4 +1192,23 @@ REGRESSIONS = [
         {"nctx": 3, "points": [{}], "helpers": [{"req": [], "grp": [], "out": "ok"}],
          "sets": [[_im(0, req=["h0"])], [_im(0, req=["c1"])], [_im(0, req=["c1"], out="list")]],
          "store_skips": False, "driver": "run"}),
+    # finding C05-sac-prunes-graph (fixed): dr.run under a hydrated serialized-archive broker removed every
+    # implementation of the hydrated specs from the graph it was handed IN PLACE - the process-wide default
+    # graph (dr.run() / dr.run(GROUPS.single) / Evaluator.process()) or the caller's own graph object - so
+    # later evaluations in the same process no longer ran the latest implementation for their context
+    Reg("serialized-archive-then-default-graph", "history",
+        {"world": {"nctx": 3, "points": [{}], "helpers": [], "sets": [[_im(0, req=["c0"])]], "store_skips": False},
+         "steps": [{"kind": "ser", "ctx": 0, "driver": "dr.run(default)"}]}),
+    Reg("serialized-archive-then-own-graph", "history",
+        {"world": {"nctx": 3, "points": [{}, {"multi_output": True}], "helpers": [],
+                   "sets": [[_im(0, req=["c0"]), _im(1, grp=["c0", "c1"], out="list")], [_im(0, req=["c0"])]],
+                   "store_skips": True},
+         "steps": [{"kind": "ctx", "ctx": 0, "driver": "dr.run(own graph)"},
+                   {"kind": "ser", "ctx": 0, "driver": "SingleEvaluator.process(own graph)"},
+                   {"kind": "ctx", "ctx": 1, "driver": "dr.run_incremental(own graph)"}]}),
+    Reg("serialized-archive-evaluator-default-graph", "history",
+        {"world": {"nctx": 3, "points": [{}], "helpers": [], "sets": [[_im(0, req=["c1"])], [_im(0, req=["c1"], out="list")]],
+                   "store_skips": False},
+         "steps": [{"kind": "ser", "ctx": 1, "driver": "SingleEvaluator.process"},
+                   {"kind": "ctx", "ctx": 1, "driver": "insights.run"}]}),
 ]
